@@ -42,3 +42,22 @@ claim(
     "as C09; concurrent waits on behalf of one borrower object are not generated",
     "DESIGN.md 5/C10",
 )
+
+claim(
+    "C12",
+    "runtime monitor on a virtual-time loop: unique-item history oracle (exactly-once accounting by draining at quiescence, per-sender order, FIFO expectations sampled by pre-call observers), buffer bound + icontract invariants at sync exits, justified-deadlock detection; known finding F7 classified by mechanism",
+    "Held (apart from the listed known finding F7) on every executed schedule: exhaustive cancel sweep around both "
+    "hand-over base programs x buffer sizes x scope|native cancel x placement, plus seeded multi-clone programs on "
+    "{stock, eager}. Evidence counts how often each hand-over window was hit.",
+    "as C09; one actor per stream handle; a spare receive clone keeps accounting exact",
+    "DESIGN.md 5/C12",
+)
+claim(
+    "C13",
+    "runtime monitor on a virtual-time loop: truth conditions of EndOfStream/BrokenResourceError/ClosedResourceError checked at the raising instant against the monitor's own open-clone sets, open-count audit at every op boundary, Broken quota at last receive-side close, icontract close invariants, justified-deadlock detection",
+    "Held on every executed history: exhaustive sweep of the cycle at which the LAST clone of a side is closed (by an "
+    "agent) with 1-3 peers blocked on the other side, plus seeded histories of clone/close/double close/ops after "
+    "close with scope and native cancellations.",
+    "as C09; a handle is only closed by the actor using it (the statement speaks of peers)",
+    "DESIGN.md 5/C13",
+)
